@@ -155,3 +155,42 @@ def build_model(cf, spec, mdesc, name='m'):
         else:
             model.add_attacker(att, attacker_id=at['id'])
     return model, objs
+
+
+# ---------------------------------------------------------------------------------------------
+# the language shipped with the repository (coreLang, produced by the reference compiler malc)
+
+_SHIPPED = {}
+
+
+def shipped_spec(name='org.mal-lang.coreLang-1.0.0.mar'):
+    import json
+    import os
+    import zipfile
+    from .env import REPO
+    if name not in _SHIPPED:
+        p = os.path.join(REPO, 'tests', 'testdata', name)
+        _SHIPPED[name] = None
+        if os.path.exists(p):
+            with zipfile.ZipFile(p) as z:
+                _SHIPPED[name] = json.loads(z.read('langspec.json'))
+    return _SHIPPED[name]
+
+
+@st.composite
+def corelang_models(draw, max_assets=7, **kw):
+    """models over coreLang restricted to a handful of asset types so that links are frequent"""
+    spec = shipped_spec()
+    L = Lang(spec)
+    pool = draw(st.lists(st.sampled_from(L.concrete()), min_size=2, max_size=5, unique=True))
+    sub = dict(spec)
+    m = draw(models(_restrict(spec, pool), max_assets=max_assets, **kw))
+    return m
+
+
+def _restrict(spec, pool):
+    """a view of the specification whose only concrete assets are those in pool (associations and
+    inheritance stay as they are, so association indexes remain valid)"""
+    view = dict(spec)
+    view['assets'] = [dict(a, isAbstract=(a['isAbstract'] or a['name'] not in pool)) for a in spec['assets']]
+    return view
